@@ -10,3 +10,56 @@ def ForAll(vs, body, patterns=None, **kw):
         except z3.Z3Exception:
             pass
     return z3.ForAll(vs, body, **kw)
+
+
+def _contains(e, var, cache):
+    k = e.get_id()
+    if k in cache:
+        return cache[k]
+    r = (False, False)   # (contains var, contains a de-Bruijn variable)
+    if z3.is_var(e):
+        r = (False, True)
+    elif e.eq(var):
+        r = (True, False)
+    elif z3.is_quantifier(e):
+        a = _contains(e.body(), var, cache)
+        r = (a[0], True)
+    else:
+        hv = hb = False
+        for c in e.children():
+            a = _contains(c, var, cache)
+            hv, hb = hv or a[0], hb or a[1]
+        r = (hv, hb)
+    cache[k] = r
+    return r
+
+
+def nested_patterns(var, body, limit=2):
+    """z3 does not look inside nested quantifiers when it infers patterns.  If the bound variable occurs in an
+    uninterpreted application only inside a nested quantifier, return such applications (free of inner bound
+    variables) to be used as explicit patterns; otherwise None."""
+    top, nested, cache = [], [], {}
+
+    def walk(e, inside):
+        if z3.is_quantifier(e):
+            walk(e.body(), True)
+            return
+        if z3.is_app(e):
+            if e.num_args() > 0 and e.decl().kind() == z3.Z3_OP_UNINTERPRETED:
+                hv, hb = _contains(e, var, cache)
+                if hv and not hb:
+                    (nested if inside else top).append(e)
+            for c in e.children():
+                walk(c, inside)
+
+    walk(body, False)
+    if top or not nested:
+        return None
+    nested.sort(key=lambda t: len(t.sexpr()))
+    out = []
+    for t in nested:
+        if not any(t.eq(o) for o in out):
+            out.append(t)
+        if len(out) >= limit:
+            break
+    return out
